@@ -329,3 +329,48 @@ def run(rec):
                         else:
                             rec.check(abs(weight - abs(amp) ** 2) < 1e-8, 'sample_measurements:probability',
                                       f'outcome {idx}: weight {weight}, dense probability {abs(amp) ** 2}', inp)
+                # sampling a sub-range of sites in the eigenbases of named operators: ops[(i - first_site) % len(ops)] on site i;
+                # the returned values are eigenvalues, the weight squared is the Born probability of that outcome
+                herm = []
+                for n in sorted(s0.opnames):
+                    if any(n not in s.opnames or s.op_needs_JW(n) for s in sites):
+                        continue
+                    good = True
+                    for s in sites:
+                        M = s.get_op(n).to_ndarray()
+                        w_ = np.linalg.eigvalsh(M) if np.allclose(M, M.conj().T) else None
+                        if w_ is None or (len(w_) > 1 and np.min(np.diff(w_)) < 1e-6):
+                            good = False
+                            break
+                    if good:
+                        herm.append(n)
+                for trial in range(3 if herm else 0):
+                    first = int(rng.integers(0, L))
+                    last = int(rng.integers(first, L))
+                    ops = [herm[int(k)] for k in rng.choice(len(herm), size=min(len(herm), int(rng.integers(1, 4))), replace=False)]
+                    ca = bool(trial % 2)
+                    inp2 = dict(inp, first_site=first, last_site=last, ops=ops, complex_amplitude=ca)
+                    ok, res = rec.guarded('sample_measurements(ops, sub-range):exception',
+                                          lambda: psi.sample_measurements(first, last, ops=ops, rng=np.random.default_rng(int(rng.integers(1 << 30))),
+                                                                          norm_tol=1e-10, complex_amplitude=ca), inp2)
+                    if not ok:
+                        continue
+                    sigmas, weight = res
+                    r = np.asarray(v).reshape([s.dim for s in sites])
+                    in_spec = True
+                    for i in range(last, first - 1, -1):        # from the right, so that the axis numbers left of i stay valid
+                        M = sites[i].get_op(ops[(i - first) % len(ops)]).to_ndarray()
+                        w_, V_ = np.linalg.eigh(M)
+                        k = int(np.argmin(np.abs(w_ - sigmas[i - first])))
+                        if abs(w_[k] - sigmas[i - first]) > 1e-8:
+                            in_spec = False
+                            break
+                        r = np.tensordot(V_[:, k].conj(), r, axes=(0, i))
+                        r = np.moveaxis(r[np.newaxis], 0, i)          # keep a dummy axis at position i
+                    rec.check(in_spec, 'sample_measurements(ops, sub-range):outcome-not-an-eigenvalue',
+                              f'outcomes {sigmas} for ops {ops} from site {first}', inp2)
+                    if in_spec:
+                        p = float(np.linalg.norm(r) ** 2)
+                        got = float(abs(weight) ** 2) if ca else float(weight)
+                        rec.check(abs(got - p) < 1e-8, 'sample_measurements(ops, sub-range):probability',
+                                  f'outcomes {sigmas}: weight gives {got}, dense Born probability {p}', inp2)
